@@ -43,6 +43,7 @@ import Driver.ATreeEx
 import Driver.SViable
 import Driver.C09B
 import Driver.AnnQ
+import Driver.KeyType
 /-!
 Line-protocol driver `jsight-model` (DESIGN.md §12). One request per line on stdin, one reply per
 line on stdout. Core Lean only: nothing imported here may import Mathlib (the executable would
@@ -257,6 +258,7 @@ def handle (line : String) : String :=
   | "semc" :: _ => DSemC.handle (restOf line)
   | "semcf" :: _ => DSemCF.handle (restOf line)
   | "semk" :: _ => DSemK.handle (restOf line)
+  | "keyt" :: _ => DKeyT.handle (restOf line)
   | "semao" :: _ => DSemAO.handle (restOf line)
   | "semor" :: _ => DSemOR.handle (restOf line)
   | "semp" :: _ => DSemP.handle (restOf line)
